@@ -85,7 +85,7 @@ fn datatype_samples() -> Vec<DataType> {
         DataType::List(f(DataType::Int32)), DataType::FixedSizeList(f(DataType::Int8), 3), DataType::LargeList(f(DataType::Utf8)),
         DataType::ListView(f(DataType::Int32)), DataType::LargeListView(f(DataType::Int32)),
         DataType::Struct(vec![Field::new("a", DataType::Int32, true), Field::new("b", DataType::Utf8, false)].into()),
-        DataType::Union(UnionFields::new(vec![0, 1], vec![Field::new("a", DataType::Int32, true), Field::new("b", DataType::Utf8, true)]), UnionMode::Dense),
+        DataType::Union(UnionFields::try_new(vec![0, 1], vec![Field::new("a", DataType::Int32, true), Field::new("b", DataType::Utf8, true)]).unwrap(), UnionMode::Dense),
         DataType::Dictionary(Box::new(DataType::Int16), Box::new(DataType::Utf8)),
         DataType::Decimal32(7, 2), DataType::Decimal64(12, 3), DataType::Decimal128(20, 4), DataType::Decimal256(50, 6),
         DataType::Map(Arc::new(Field::new("entries", DataType::Struct(vec![Field::new("key", DataType::Utf8, false), Field::new("value", DataType::Int32, true)].into()), false)), false),
@@ -145,7 +145,7 @@ fn enum_stream() {
     }
     // UnionMode travels inside the Union arrow type
     for m in [UnionMode::Sparse, UnionMode::Dense] {
-        let dt = DataType::Union(UnionFields::new(vec![0], vec![Field::new("a", DataType::Int32, true)]), m);
+        let dt = DataType::Union(UnionFields::try_new(vec![0], vec![Field::new("a", DataType::Int32, true)]).unwrap(), m);
         match pc::ArrowType::try_from(&dt) {
             Ok(at) => {
                 let tag = match &at.arrow_type_enum { Some(pc::arrow_type::ArrowTypeEnum::Union(u)) => u.union_mode, _ => -1 };
@@ -379,6 +379,92 @@ fn random_expr(rng: &mut Rng, d: u32) -> Expr {
     }
 }
 
+
+// ------------------------------------------------------------------------------------------------ Coq renderings (tie of the Expr model)
+fn cstr(s: &str) -> Option<String> { if s.is_ascii() && !s.chars().any(|c| c.is_control()) { Some(format!("\"{}\"", s.replace('"', "\"\""))) } else { None } }
+fn cbool(b: bool) -> &'static str { if b { "true" } else { "false" } }
+fn copt(o: Option<String>) -> String { match o { Some(x) => format!("(Some {x})"), None => "None".into() } }
+fn bare(r: &TableReference) -> Option<String> { match r { TableReference::Bare { table } => cstr(table), _ => None } }
+fn clit(v: &ScalarValue) -> Option<String> {
+    Some(match v {
+        ScalarValue::Null => "LNull".into(),
+        ScalarValue::Boolean(Some(b)) => format!("(LBool {})", cbool(*b)),
+        ScalarValue::Int64(Some(z)) => format!("(LInt ({z}))"),
+        ScalarValue::Utf8(Some(s)) => format!("(LUtf8 {})", cstr(s)?),
+        _ => return None,
+    })
+}
+fn cty(t: &DataType) -> Option<String> {
+    Some(format!("DataType_{}", match t { DataType::Int32 => "Int32", DataType::Int64 => "Int64", DataType::Utf8 => "Utf8", DataType::Float64 => "Float64",
+        DataType::Boolean => "Boolean", DataType::Date32 => "Date32", _ => return None }))
+}
+fn coq_expr(e: &Expr) -> Option<String> {
+    let go = |x: &Expr| coq_expr(x);
+    Some(match e {
+        Expr::Column(c) => format!("(EColumn {} {})", match &c.relation { Some(r) => format!("(Some {})", bare(r)?), None => "None".into() }, cstr(&c.name)?),
+        Expr::Literal(v, None) => format!("(ELit {} None)", clit(v)?),
+        Expr::BinaryExpr(b) => format!("(EBinary {} Operator_{:?} {})", go(&b.left)?, b.op, go(&b.right)?),
+        Expr::Not(x) => format!("(ENot {})", go(x)?),
+        Expr::IsNull(x) => format!("(EIsNull {})", go(x)?),
+        Expr::IsNotNull(x) => format!("(EIsNotNull {})", go(x)?),
+        Expr::Negative(x) => format!("(ENegative {})", go(x)?),
+        Expr::Between(b) => format!("(EBetween {} {} {} {})", go(&b.expr)?, cbool(b.negated), go(&b.low)?, go(&b.high)?),
+        Expr::Like(l) => format!("(ELike {} {} {} {} {})", cbool(l.negated), go(&l.expr)?, go(&l.pattern)?,
+            match l.escape_char { Some(c) => format!("(Some {})", cstr(&c.to_string())?), None => "None".into() }, cbool(l.case_insensitive)),
+        Expr::Case(c) => {
+            let ws: Option<Vec<String>> = c.when_then_expr.iter().map(|(w, t)| Some(format!("({}, {})", go(w)?, go(t)?))).collect();
+            format!("(ECase {} [{}] {})", match &c.expr { Some(x) => format!("(Some {})", go(x)?), None => "None".into() }, ws?.join("; "),
+                match &c.else_expr { Some(x) => format!("(Some {})", go(x)?), None => "None".into() })
+        }
+        Expr::InList(l) => { let is: Option<Vec<String>> = l.list.iter().map(go).collect(); format!("(EInList {} [{}] {})", go(&l.expr)?, is?.join("; "), cbool(l.negated)) }
+        Expr::Cast(c) => { if !c.field.metadata().is_empty() { return None; } format!("(ECast {} {} {} [])", go(&c.expr)?, cty(c.field.data_type())?, cbool(c.field.is_nullable())) }
+        Expr::TryCast(c) => { if !c.field.metadata().is_empty() { return None; } format!("(ETryCast {} {} {} [])", go(&c.expr)?, cty(c.field.data_type())?, cbool(c.field.is_nullable())) }
+        Expr::Alias(a) => { if a.metadata.is_some() { return None; }
+            format!("(EAlias {} {} {} None)", go(&a.expr)?, match &a.relation { Some(r) => format!("(Some {})", bare(r)?), None => "None".into() }, cstr(&a.name)?) }
+        _ => return None,
+    })
+}
+fn coq_pexpr(n: &pb::LogicalExprNode) -> Option<String> {
+    use pb::logical_expr_node::ExprType as T;
+    let ob = |x: &Option<Box<pb::LogicalExprNode>>| -> Option<String> { Some(match x { Some(b) => format!("(Some {})", coq_pexpr(b)?), None => "None".into() }) };
+    let on = |x: &Option<pb::LogicalExprNode>| -> Option<String> { Some(match x { Some(b) => format!("(Some {})", coq_pexpr(b)?), None => "None".into() }) };
+    let meta = |m: &HashMap<String, String>| -> Option<String> { if m.is_empty() { Some("[]".into()) } else { None } };
+    let tref = |r: &pb::TableReference| -> Option<String> { match &r.table_reference_enum { Some(pb::table_reference::TableReferenceEnum::Bare(b)) => cstr(&b.table), _ => None } };
+    let aty = |t: &Option<pc::ArrowType>| -> Option<String> { Some(match t { Some(a) => match &a.arrow_type_enum { Some(e) => format!("(Some \"{}\")", dbg_kind(e)), None => return None }, None => "None".into() }) };
+    Some(match n.expr_type.as_ref()? {
+        T::Column(c) => format!("(PColumn {} {})", match &c.relation { Some(r) => format!("(Some {})", cstr(&r.relation)?), None => "None".into() }, cstr(&c.name)?),
+        T::Literal(l) => {
+            use pc::scalar_value::Value as V;
+            format!("(PLiteral {})", match l.value.as_ref()? { V::Int64Value(z) => format!("(LInt ({z}))"), V::Utf8Value(s) => format!("(LUtf8 {})", cstr(s)?), V::BoolValue(b) => format!("(LBool {})", cbool(*b)),
+                V::NullValue(t) => match &t.arrow_type_enum { Some(pc::arrow_type::ArrowTypeEnum::None(_)) => "LNull".to_string(), _ => return None }, _ => return None })
+        }
+        T::BinaryExpr(b) => { let os: Option<Vec<String>> = b.operands.iter().map(coq_pexpr).collect(); format!("(PBinary [{}] {})", os?.join("; "), cstr(&b.op)?) }
+        T::NotExpr(x) => format!("(PNot {})", ob(&x.expr)?),
+        T::IsNullExpr(x) => format!("(PIsNull {})", ob(&x.expr)?),
+        T::IsNotNullExpr(x) => format!("(PIsNotNull {})", ob(&x.expr)?),
+        T::Negative(x) => format!("(PNegative {})", ob(&x.expr)?),
+        T::Between(b) => format!("(PBetween {} {} {} {})", ob(&b.expr)?, cbool(b.negated), ob(&b.low)?, ob(&b.high)?),
+        T::Like(l) => format!("(PLike {} {} {} {})", cbool(l.negated), ob(&l.expr)?, ob(&l.pattern)?, cstr(&l.escape_char)?),
+        T::Ilike(l) => format!("(PILike {} {} {} {})", cbool(l.negated), ob(&l.expr)?, ob(&l.pattern)?, cstr(&l.escape_char)?),
+        T::Case(c) => { let ws: Option<Vec<String>> = c.when_then_expr.iter().map(|w| Some(format!("({}, {})", on(&w.when_expr)?, on(&w.then_expr)?))).collect();
+            format!("(PCase {} [{}] {})", ob(&c.expr)?, ws?.join("; "), ob(&c.else_expr)?) }
+        T::InList(l) => { let is: Option<Vec<String>> = l.list.iter().map(coq_pexpr).collect(); format!("(PInList {} [{}] {})", ob(&l.expr)?, is?.join("; "), cbool(l.negated)) }
+        T::Cast(c) => format!("(PCast {} {} {} {})", ob(&c.expr)?, aty(&c.arrow_type)?, meta(&c.metadata)?, copt(c.nullable.map(|b| cbool(b).to_string()))),
+        T::TryCast(c) => format!("(PTryCast {} {} {} {})", ob(&c.expr)?, aty(&c.arrow_type)?, meta(&c.metadata)?, copt(c.nullable.map(|b| cbool(b).to_string()))),
+        T::Alias(a) => { let rs: Option<Vec<String>> = a.relation.iter().map(tref).collect(); format!("(PAlias {} [{}] {} {})", ob(&a.expr)?, rs?.join("; "), cstr(&a.alias)?, meta(&a.metadata)?) }
+        _ => return None,
+    })
+}
+/// Coq renderings of (expr, wire node produced by the real serialize_expr, expr the real parse_expr gives back)
+fn tie_of(ctx: &SessionContext, e: &Expr) -> Option<String> {
+    let ce = coq_expr(e)?;
+    let codec = DefaultLogicalExtensionCodec {};
+    let node = serialize_expr(e, &codec).ok()?;
+    let cp = coq_pexpr(&node)?;
+    let back = match parse_expr(&node, ctx.task_ctx().as_ref(), &codec) { Ok(b) => format!("(Some {})", coq_expr(&b)?), Err(_) => "None".into() };
+    Some(format!("{{\"e\":{},\"p\":{},\"b\":{}}}", json_str(&ce), json_str(&cp), json_str(&back)))
+}
+
 fn shape(e: &Expr) -> String { dbg_kind(e) }
 
 fn expr_case(ctx: &SessionContext, id: usize, name: &str, key: &str, e: &Expr) {
@@ -395,7 +481,8 @@ fn expr_case(ctx: &SessionContext, id: usize, name: &str, key: &str, e: &Expr) {
     let (extra, why, ok) = match r { Ok(x) => x, Err(p) => ("\"panic\":true".to_string(), Some(format!("panic: {}", panic_msg(p))), false) };
     let mut text = format!("{e:?}");
     if text.len() > 600 { text.truncate(600); text.push_str("..."); }
-    println!("{{\"k\":\"expr\",\"id\":{id},\"name\":{},\"shape\":\"{}\",\"expr\":{},{extra},\"key\":{},\"why\":{},\"ok\":{ok}}}",
+    let tie = catch_unwind(AssertUnwindSafe(|| tie_of(ctx, e))).ok().flatten().unwrap_or("null".into());
+    println!("{{\"k\":\"expr\",\"id\":{id},\"name\":{},\"shape\":\"{}\",\"expr\":{},{extra},\"key\":{},\"tie\":{tie},\"why\":{},\"ok\":{ok}}}",
         json_str(name), shape(e), json_str(&text), json_str(key), why.map(|w| json_str(&w[..w.len().min(700)])).unwrap_or("null".into()));
 }
 
